@@ -36,6 +36,7 @@ func registerLayer(l *layerSpec) { layerSpecs[l.name] = l }
 
 func init() {
 	executors["dec"] = execDec
+	executors["decn"] = execDec
 	scenarios["dec"] = func(g *genCtx) {
 		var only map[string]bool
 		if o := os.Getenv("VERIF_ONLY"); o != "" {
@@ -163,13 +164,16 @@ func execDec(a []string) (string, string) {
 	if !ok {
 		return "no-such-layer", ""
 	}
-	prev, data, tail := unhx(a[1]), unhx(a[2]), unhx(a[3])
+	prev, data, tail := unhx(strings.Split(a[1], "+")[len(strings.Split(a[1], "+"))-1]), unhx(a[2]), unhx(a[3])
 	h := spec.hide
 	fresh := decodeOnce(spec.fresh(), window(data, nil), h)
 	l := spec.fresh()
 	if a[1] != "-" {
-		if r := decodeOnce(l, window(prev, nil), h); !strings.HasPrefix(r, "ok") {
-			return "prev-failed", ""
+		// one earlier input, or a CHAIN of them ("p1+p2+…": the receiver's fourth, fifth … use)
+		for _, ph := range strings.Split(a[1], "+") {
+			if r := decodeOnce(l, window(unhx(ph), nil), h); !strings.HasPrefix(r, "ok") {
+				return "prev-failed", ""
+			}
 		}
 	}
 	res := decodeOnce(l, window(data, tail), h)
@@ -231,6 +235,18 @@ func genDec(g *genCtx, only map[string]bool) {
 			emit('P', true, nil, v, nil)
 			emit('P', true, nil, v, poison[1])
 			emit('P', true, pool[g.rng.Intn(len(pool))], v, poison[i%2])
+			if i%5 == 0 {
+				// the receiver's 4th … 7th use: a chain of earlier valid inputs of different shapes, then this one
+				var chain []string
+				for k := 0; k < 3+g.rng.Intn(4); k++ {
+					if e := pool[g.rng.Intn(len(pool))]; len(e) > 0 {
+						chain = append(chain, hx(e))
+					}
+				}
+				if len(chain) >= 3 {
+					g.emit(Op{Class: 'P', NonTrivial: true, Kind: "decn", Args: []string{n, strings.Join(chain, "+"), hx(v), hx(poison[i%2])}})
+				}
+			}
 			if i < 40 || g.thorough() && i < 200 {
 				// every truncation; below the minimum the specification demands an error
 				for l := 0; l < len(v); l++ {
